@@ -25,6 +25,7 @@ CFG = dict(
         "composite literals of host-declared named types: slice/array element positions are re-computed by Y (lit_indexes) on every case; map and struct literals and all forms (variable, conversion from a script type, nested) are compared behaviourally with the literal evaluated natively",
         "result placement with captured variables (closure / pointer taken before a := re-declaration or = of a multi-result host call): compared behaviourally with Go's rule and with the same statement calling a script function; not modelled in Coq",
         "host-declared func types (stream F: 10 positions x 8 kinds of function expression, consumed in the script, through the host method, by a host function and natively): compared behaviourally with the function's own results; Y only says at which positions a declared function's name is wrapped (y_functype_wraps), region cells are pinned to the panic class",
+        "destination of a host call's result (stream D: literal/named context x 11 destination kinds incl. variables captured at nesting 1 and 2 x 10 statement forms x 7 result types, neighbouring locals of every function level printed afterwards): compared behaviourally with Go's assignment rule computed natively; not modelled in Coq",
         "script-side observation uses strconv/math host calls as trusted infrastructure (also used by the in-script oracle)",
     ],
     harness_timeout=2400,
